@@ -7,16 +7,16 @@ from .keys import check_keying
 
 
 def check(ck):
-    H.check_hash_input_coverage(ck, "C01.R1")
-    H.check_rule_kinds_contribute(ck, "C01.R2")
-    H.check_digest_consumes_rules(ck, "C01.R3")
-    H.check_descent_complete(ck, "C01.R4")
-    H.check_dotted_names(ck, "C01.R4b")
-    check_keying(ck, "C01.R5")
-    H.check_enforcement(ck, "C01.R6")
-    H.check_version_taint(ck, "C01.R7")
-    H.check_did_change(ck, "C01.R8")
-    H.check_resolver_closures(ck, "C01.R9")
+    ck.run(H.check_hash_input_coverage, ck, "C01.R1")
+    ck.run(H.check_rule_kinds_contribute, ck, "C01.R2")
+    ck.run(H.check_digest_consumes_rules, ck, "C01.R3")
+    ck.run(H.check_descent_complete, ck, "C01.R4")
+    ck.run(H.check_dotted_names, ck, "C01.R4b")
+    ck.run(check_keying, ck, "C01.R5")
+    ck.run(H.check_enforcement, ck, "C01.R6")
+    ck.run(H.check_version_taint, ck, "C01.R7")
+    ck.run(H.check_did_change, ck, "C01.R8")
+    ck.run(H.check_resolver_closures, ck, "C01.R9")
     ck.rule("C01.R10", "bindings: every symbol a function uses has its own watcher (rules are distinct per symbol), and which symbol "
                        "is bound to which object is visible in the digest", 4)
-    H.check_bindings(ck, "C01.R10")
+    ck.run(H.check_bindings, ck, "C01.R10")
